@@ -62,6 +62,7 @@ class Loader(yaml.SafeLoader):
         """
         node = cast(yaml.Node, super().get_single_node())
         if node is not None:
+            node = self.__expand_aliases(node, frozenset())
             node = self.__process_node(node, type(self).document_type)
         return node
 
@@ -77,8 +78,52 @@ class Loader(yaml.SafeLoader):
         """
         node = cast(yaml.Node, super().get_node())
         if node is not None:
+            node = self.__expand_aliases(node, frozenset())
             node = self.__process_node(node, type(self).document_type)
         return node
+
+    def __expand_aliases(
+            self, node: yaml.Node, ancestors: 'frozenset[int]') -> yaml.Node:
+        """Replaces every alias by a copy of the anchored node.
+
+        PyYAML composes an alias as the very same Node object as its
+        anchor. Since we rewrite nodes in place according to the type
+        expected at their position, a node that is referred to more
+        than once needs to be a separate object for each reference.
+
+        Args:
+            node: The (sub)graph to expand.
+            ancestors: Ids of the nodes we are inside of.
+
+        Returns:
+            A tree of new nodes.
+
+        Raises:
+            RecognitionError: If the node refers to itself.
+        """
+        if id(node) in ancestors:
+            raise RecognitionError((
+                '{}\nThis node contains a reference to itself, which is'
+                ' not supported.').format(node.start_mark))
+        if isinstance(node, yaml.SequenceNode):
+            inside = ancestors | {id(node)}
+            return yaml.SequenceNode(
+                    node.tag,
+                    [self.__expand_aliases(item, inside)
+                        for item in node.value],
+                    node.start_mark, node.end_mark, node.flow_style)
+        if isinstance(node, yaml.MappingNode):
+            inside = ancestors | {id(node)}
+            return yaml.MappingNode(
+                    node.tag,
+                    [(
+                        self.__expand_aliases(key_node, inside),
+                        self.__expand_aliases(value_node, inside))
+                        for key_node, value_node in node.value],
+                    node.start_mark, node.end_mark, node.flow_style)
+        return yaml.ScalarNode(
+                node.tag, node.value, node.start_mark, node.end_mark,
+                node.style)
 
     def __type_to_tag(self, type_: Type) -> str:
         """Convert a type to the corresponding YAML tag.
